@@ -216,9 +216,9 @@ theorem C19_same_when_valid (r : RenderReq)
     (hok : ∀ node macros, buildProgram
         { r.bcfg with booleanAttrs := (match r.booleanAttrs with | some b => b | none => if (r.xmlMode.getD (isXmlDoc r.src) && !r.textMode) then [] else r.htmlBooleans),
                       escape := !r.textMode } r.textMode
-        (if (r.xmlMode.getD (isXmlDoc r.src) && !r.textMode) then r.src else normalizeNewlines r.src) = .ok (node, macros) →
+        (if r.xmlMode.getD (isXmlDoc r.src) then r.src else normalizeNewlines r.src) = .ok (node, macros) →
       compileCheck { rx := r.bcfg.rx, q := r.bcfg.q, oracle := r.oracle, decodeInterp := !r.textMode } true
-        (8 * (if (r.xmlMode.getD (isXmlDoc r.src) && !r.textMode) then r.src else normalizeNewlines r.src).length + 64) macros node = .ok ()) :
+        (8 * (if r.xmlMode.getD (isXmlDoc r.src) then r.src else normalizeNewlines r.src).length + 64) macros node = .ok ()) :
     render (r.withStrict false) = render (r.withStrict true) := by
   unfold render RenderReq.withStrict
   simp only
